@@ -58,23 +58,40 @@ Definition parse_defs (fs : list field) : option (defs * list field) :=
   end.
 
 Definition opts_of (bits : Z) : cut_opts :=
-  {| o_disallow_unknown := Z.testbit bits 0; o_not_check_req := Z.testbit bits 1; o_write_default := Z.testbit bits 2; o_shared := Z.testbit bits 3 |}.
+  {| o_disallow_unknown := Z.testbit bits 0; o_not_check_req := Z.testbit bits 1; o_write_default := Z.testbit bits 2;
+     o_opt_bitmap := Z.testbit bits 4 |}.
 
-(* 1101: defs, from idx, to idx, option bits (0 DisallowUnknow, 1 NotCheckRequireNess, 2 WriteDefault, 3 same parse), input bytes, err class, output *)
+(* what the caller of MarshalTo observes: error class and output bytes (nil on error) *)
+Definition observe_v (r : cres tval) : Z * list Z := match r with COk v => (0, encode v) | CErr c => (c, []) end.
+Definition observe_b (r : cres (list Z * list Z)) : Z * list Z := match r with COk (out, _) => (0, out) | CErr c => (c, []) end.
+Definition obs_eqb (a b : Z * list Z) : bool := (fst a =? fst b) && bytes_eqb (snd a) (snd b).
+(* error class 4 of the model = any error that is not one of the three classes the property names *)
+Definition obs_match (model impl : Z * list Z) : bool :=
+  if fst model =? 4 then negb (fst impl =? 0) && negb (fst impl =? 1) && negb (fst impl =? 2) && negb (fst impl =? 3) && bytes_eqb (snd impl) []
+  else obs_eqb model impl.
+
+(* 1101: defs, from idx, to idx, option bits (0 DisallowUnknow, 1 NotCheckRequireNess, 2 WriteDefault,
+   3 both descriptors come from one parse, 4 parsed with SetOptionalBitmap), input bytes, err class, output *)
 Definition check_1101 (fs : list field) : verdict :=
   match parse_defs fs with
   | Some (d, [FZ a; FZ b; FZ bits; FB bs; FZ err; FB out]) =>
     match decode_all T_STRUCT bs with
     | None => VSkip
     | Some v =>
-      if negb (wf v) then VSkip else
-      match project d (opts_of bits) (S (length bs)) (TStruct a) (TStruct b) v with
-      | COk v' =>
-        if (err =? 0) && bytes_eqb out (encode v') then VOk
-        else if (err =? 0) && (match decode_all T_STRUCT out with Some w => tval_eqb (canon w) (canon v') | None => false end) then VDrift 1
-        else VBad 1 [FZ 0; FB (encode v')]
-      | CErr c => expect 2 (if c =? 4 then negb (err =? 0) else err =? c) [FZ c]
-      end
+      let fuel := S (length bs) in
+      if negb (wf v && conf d fuel (TStruct a) v && (depth v <=? 1000)%nat) then VSkip else
+      let o := opts_of bits in
+      let pe := pe_parse (Z.testbit bits 3) in
+      let impl := (err, out) in
+      let spec := observe_v (project d o pe fuel (TStruct a) (TStruct b) v) in
+      let alg := observe_b (cut d o pe false fuel (TStruct a) (TStruct b) bs) in
+      if negb (obs_eqb spec alg) then VBad 98 [FZ (fst alg); FB (snd alg)]   (* excluded by cut_refines_project *)
+      else if obs_match spec impl then VOk
+      else
+        let q := observe_b (cut d o pe true fuel (TStruct a) (TStruct b) bs) in
+        if negb (obs_eqb q alg) && obs_match q impl then VKnown 1101
+        else if obs_match (observe_v (project d o pe_none fuel (TStruct a) (TStruct b) v)) impl then VDrift 2
+        else VBad 1 [FZ (fst spec); FB (snd spec)]
     end
   | _ => VBad 99 []
   end.
